@@ -21,64 +21,77 @@ func eqOutputs(got, want []float64, what string) {
 	}
 }
 
+// run drives one solver: load, propagate, read
+type c12Solver struct {
+	name string
+	load func([]float64) error
+	run  func() error
+	read func() []float64
+}
+
 func vc12(c tNetCfg) {
 	t := tBuild(c)
 	vAssume(t.allReachable())
 	d := t.depth()
 	vAssume(d >= 1)
-	x := symInputs(c.nIn)
-	want := t.reference(x)
 	steps := d + vChoice("extraSteps", 2)
+	delta := vFloat("delta")
+	vAssume(vAnd(delta > 0, delta <= 1))
 
-	// standard network solver
-	err := t.net.LoadSensors(x)
-	vAssert(err == nil, "standard: LoadSensors succeeds")
-	_, err = t.net.ForwardSteps(steps)
-	vAssert(err == nil, "standard: ForwardSteps succeeds")
-	eqOutputs(t.net.ReadOutputs(), want, "standard solver")
-
-	// fast solver: forward stepping
 	fs, err := t.net.FastNetworkSolver()
 	vAssert(err == nil, "fast solver can be built")
 	if err != nil {
 		return
 	}
-	vAssert(fs.LoadSensors(x) == nil, "fast: LoadSensors succeeds")
-	_, err = fs.ForwardSteps(steps)
-	vAssert(err == nil, "fast: ForwardSteps succeeds")
-	eqOutputs(fs.ReadOutputs(), want, "fast forward stepping")
-
-	// fast solver: recursive activation (fresh instance)
 	fr, _ := t.net.FastNetworkSolver()
-	vAssert(fr.LoadSensors(x) == nil, "fast recursive: LoadSensors succeeds")
-	_, err = fr.RecursiveSteps()
-	vAssert(err == nil, "fast: RecursiveSteps succeeds")
-	eqOutputs(fr.ReadOutputs(), want, "fast recursive activation")
-
-	// fast solver: relaxation, one step per call so that exactly `steps` steps are taken with delta > 0
 	fx, _ := t.net.FastNetworkSolver()
-	vAssert(fx.LoadSensors(x) == nil, "fast relax: LoadSensors succeeds")
-	delta := vFloat("delta")
-	vAssume(vAnd(delta > 0, delta <= 1))
-	for i := 0; i < steps; i++ {
-		_, err = fx.Relax(1, delta)
-		vAssert(err == nil, "fast: Relax succeeds")
+	solvers := []c12Solver{
+		{"standard solver", t.net.LoadSensors, func() error { _, e := t.net.ForwardSteps(steps); return e }, t.net.ReadOutputs},
+		{"fast forward stepping", fs.LoadSensors, func() error { _, e := fs.ForwardSteps(steps); return e }, fs.ReadOutputs},
+		{"fast recursive activation", fr.LoadSensors, func() error { _, e := fr.RecursiveSteps(); return e }, fr.ReadOutputs},
+		// relaxation, one step per call so that exactly `steps` steps are taken with delta > 0
+		{"fast relaxation", fx.LoadSensors, func() error {
+			for i := 0; i < steps; i++ {
+				if _, e := fx.Relax(1, delta); e != nil {
+					return e
+				}
+			}
+			return nil
+		}, fx.ReadOutputs},
 	}
-	eqOutputs(fx.ReadOutputs(), want, "fast relaxation")
-
-	// a single relaxation call that reports "not relaxed" has used all its steps
-	fy, _ := t.net.FastNetworkSolver()
-	_ = fy.LoadSensors(x)
-	relaxed, err := fy.Relax(steps, delta)
-	vAssert(err == nil, "fast: Relax succeeds")
-	if !relaxed {
-		eqOutputs(fy.ReadOutputs(), want, "fast relaxation (all steps used)")
+	// two input vectors in a row on the SAME instances: the value depends on the loaded inputs only
+	for round := 0; round < 2; round++ {
+		x := symInputs(c.nIn)
+		want := t.reference(x)
+		for si, s := range solvers {
+			if round == 1 && si == 3 {
+				// a second relaxation run compares signals of two different input vectors against delta: those
+				// branch conditions are non-linear in 64-bit products and do not finish; relaxation is checked once
+				continue
+			}
+			vAssert(s.load(x) == nil, s.name+": LoadSensors succeeds")
+			vAssert(s.run() == nil, s.name+": propagation succeeds")
+			eqOutputs(s.read(), want, s.name)
+		}
+		if round == 0 {
+			// a single relaxation call that reports "not relaxed" has used all its steps
+			fy, _ := t.net.FastNetworkSolver()
+			_ = fy.LoadSensors(x)
+			relaxed, err := fy.Relax(steps, delta)
+			vAssert(err == nil, "fast: Relax succeeds")
+			if !relaxed {
+				eqOutputs(fy.ReadOutputs(), want, "fast relaxation (all steps used)")
+			}
+		}
 	}
 	vReach("end")
 }
 
 func VC12_Linear_Quick() {
 	vc12(tNetCfg{nIn: 1, nBias: 1, nHid: 1, nOut: 1, atype: neatmath.LinearActivation})
+}
+func VC12_TwoBias_Quick() {
+	vc12(tNetCfg{nIn: 1, nBias: 2, nHid: 0, nOut: 1, atype: neatmath.LinearActivation})
 }
 func VC12_NoBias_Quick() {
 	vc12(tNetCfg{nIn: 2, nBias: 0, nHid: 1, nOut: 1, atype: neatmath.LinearActivation})
